@@ -112,8 +112,8 @@ func CheckC03(e *fw.Env, l *Lab) {
 		}
 		var sites []string
 		for s := range counts {
-			if s == "bank.GetBalance" || s == "app.OnRecvPacket" {
-				continue // cannot return an error / handled separately
+			if s == "app.OnRecvPacket" {
+				continue // handled separately
 			}
 			sites = append(sites, s)
 		}
@@ -243,6 +243,8 @@ func naturalFailures(e *fw.Env) {
 		{"unenrolled-router", nil, world.USDC, big.NewInt(1_000_000), spec.Spec{HasFee: true, Fees: []spec.Fee{{Recipient: rc[1], IsBPS: true, BPS: 10}}, Route: func() spec.Route { r := hyp; r.Domain = 7; return r }()}},
 		{"wrong-denom-token", nil, world.USDC, big.NewInt(1_000_000), spec.Spec{HasFee: true, Fees: []spec.Fee{{Recipient: rc[1], IsBPS: true, BPS: 10}}, Route: func() spec.Route { r := hyp; r.TokenID = w.Hyp.TokenUSDN.Bytes(); return r }()}},
 		{"blocked-internal-recipient", nil, world.USDC, big.NewInt(1_000_000), spec.Spec{HasFee: true, Fees: []spec.Fee{{Recipient: rc[1], IsBPS: true, BPS: 10}}, Route: spec.Route{Kind: "internal", To: ModAddr("bonded_tokens_pool")}}},
+		{"fee-to-the-orbiter-account-breaks-balance-precondition", nil, world.USDC, big.NewInt(1_000_000), spec.Spec{HasFee: true, Fees: []spec.Fee{{Recipient: rc[1], IsBPS: true, BPS: 10}, {Recipient: OrbiterReceiver(), Amount: "1000"}}, Route: internal}},
+		{"fee-to-the-orbiter-account-cctp", nil, world.USDC, big.NewInt(1_000_000), spec.Spec{HasFee: true, Fees: []spec.Fee{{Recipient: OrbiterReceiver(), IsBPS: true, BPS: 100}}, Route: cctp}},
 		{"insufficient-escrow", nil, world.USDC, new(big.Int).Mul(e14, big.NewInt(5)), spec.Spec{Route: internal}},
 		{"cctp-non-burnable-denom", nil, world.USDN, big.NewInt(1_000_000), spec.Spec{HasFee: true, Fees: []spec.Fee{{Recipient: rc[1], IsBPS: true, BPS: 10}}, Route: cctp}},
 		{"igp-hook-without-funds", nil, world.USDC, big.NewInt(1_000_000), spec.Spec{HasFee: true, Fees: []spec.Fee{{Recipient: rc[1], IsBPS: true, BPS: 10}},
